@@ -78,7 +78,63 @@ def gen_additive(rng, n):
         if t[0] == "L":
             return t
         return ("N", dress(t[1]), rng.choice(lens), dress(t[3]), rng.choice(lens))
-    return dress(random_shape(rng, labels))
+
+    def dress_long(t):
+        """every cherry gets one or two long pendant edges, all other edges are short: sibling
+        leaves are then farther apart than the average pair"""
+        if t[0] == "L":
+            return t
+        short, long_ = [F(1, 8), F(1, 4)], [F(2), F(5, 2), F(3), F(25, 8)]
+        if t[1][0] == "L" and t[3][0] == "L":
+            which = rng.choice(["l", "r", "both"])
+            return ("N", t[1], rng.choice(long_ if which in ("l", "both") else short),
+                    t[3], rng.choice(long_ if which in ("r", "both") else short))
+        return ("N", dress_long(t[1]), rng.choice(short), dress_long(t[3]), rng.choice(short))
+    shape = random_shape(rng, labels)
+    return dress_long(shape) if rng.random() < 0.3 else dress(shape)
+
+
+def relabel_cherry(rng, t, n):
+    """rename the leaves so that some pair of sibling leaves is (1, x), x in {0, 2, 3} - cluster
+    member lists like [1, 2] next to a taxon 12 (needs n >= 13)"""
+    cherries = []
+
+    def find(t):
+        if t[0] == "N":
+            if t[1][0] == "L" and t[3][0] == "L":
+                cherries.append((t[1][1], t[3][1]))
+            find(t[1])
+            find(t[3])
+    find(t)
+    p, q = rng.choice(cherries)
+    x = rng.choice([0, 2, 3])
+    perm = {p: 1, q: x, 1: p, x: q}
+    if p == x or q == 1:               # keep it a permutation in the overlapping cases
+        perm = {p: 1, q: x}
+        rest_src = [k for k in range(n) if k not in (p, q)]
+        rest_dst = [k for k in range(n) if k not in (1, x)]
+        perm.update(dict(zip(rest_src, rest_dst)))
+
+    def ren(t):
+        if t[0] == "L":
+            return ("L", perm.get(t[1], t[1]))
+        return ("N", ren(t[1]), t[2], ren(t[3]), t[4])
+    out = ren(t)
+    assert sorted(leaves(out)) == list(range(n))
+    return out
+
+
+def gen_big_case(rng):
+    """13-16 taxa, a cherry (1, x): tracer keys / node numbers with two digits"""
+    algo = rng.choice(["nj", "nj", "upgma"])
+    n = rng.choice([13, 14, 15, 16])
+    container = rng.choice(["list", "numpy"])
+    names = rng.sample(NAME_POOL, n) if rng.random() < 0.5 else None
+    if rng.random() < 0.5:
+        t = relabel_cherry(rng, gen_ultrametric(rng, n), n)
+        return make_case(algo, "ultra", tree_metric(t, n), t, container, names)
+    t = relabel_cherry(rng, gen_additive(rng, n), n)
+    return make_case(algo, "additive", tree_metric(t, n), t if algo == "nj" else None, container, names)
 
 
 def gen_arbitrary(rng, n):
